@@ -89,8 +89,8 @@ def minmax_history_job(comm, shape, nprocs, eta_i, out):
     fixes = ([(0, shape[0] - 1)], [(1, 0)], [(2, shape[2] // 2)], [(3, 0)], [(0, 0), (3, shape[3] - 1)], [])
     root = comm.Get_size() - 1
 
-    def report(stage):
-        for fix in fixes:
+    def report(stage, order=1):
+        for fix in fixes[::order]:
             if fix:
                 ax = [a for a, _ in fix] if len(fix) > 1 else fix[0][0]
                 fv = [b for _, b in fix] if len(fix) > 1 else fix[0][1]
@@ -106,13 +106,13 @@ def minmax_history_job(comm, shape, nprocs, eta_i, out):
     g.setLayout("poloidal")
     report("poloidal while a save is held")
     g.restoreGridValues()
-    report("after restoreGridValues (flux_surface)")
+    report("after restoreGridValues (flux_surface)", -1)      # the request made last before the restore comes first after it
     g.setLayout("v_parallel")
     report("v_parallel after restore")
     g.saveGridValues()
     g.setLayout("flux_surface")
     g.freeGridSave()
-    report("flux_surface after save / setLayout / free")
+    report("flux_surface after save / setLayout / free", -1)
 
 
 def phi_job(comm, shape, nprocs, eta_i, kind, out):
